@@ -255,6 +255,55 @@ pub fn parse_debug(s: &str) -> Result<V, String> {
     Ok(v)
 }
 
+/// step through enum wrappers (`Name(ExprName {..})`, `Some(x)`)
+pub fn unwrap(v: &V) -> &V {
+    match v {
+        V::Tuple(_, vs) if vs.len() == 1 => match &vs[0] {
+            V::Struct(..) => unwrap(&vs[0]),
+            _ => {
+                if let V::Tuple(n, _) = v {
+                    if n == "Some" {
+                        return unwrap(&vs[0]);
+                    }
+                }
+                v
+            }
+        },
+        _ => v,
+    }
+}
+
+/// subtree at a dotted path of field names and list indices, e.g. `body.0.targets.1`
+pub fn navigate<'a>(v: &'a V, path: &str) -> Option<&'a V> {
+    let mut cur = unwrap(v);
+    if path == "-" || path.is_empty() {
+        return Some(cur);
+    }
+    for step in path.split('.') {
+        cur = unwrap(cur);
+        cur = match cur {
+            V::Struct(_, fs) => &fs.iter().find(|(f, _)| f == step)?.1,
+            V::List(xs) => xs.get(step.parse::<usize>().ok()?)?,
+            _ => return None,
+        };
+    }
+    Some(unwrap(cur))
+}
+
+/// `@a..b` of a struct node
+pub fn range_of(v: &V) -> Option<String> {
+    if let V::Struct(_, fs) = unwrap(v) {
+        for (f, x) in fs {
+            if f == "range" {
+                if let V::Range(a, b) = x {
+                    return Some(format!("@{}..{}", a, b));
+                }
+            }
+        }
+    }
+    None
+}
+
 fn hexs(b: &[u8], out: &mut String) {
     if b.is_empty() {
         out.push('-');
